@@ -420,6 +420,9 @@ type PoolParams struct {
 	Points    int64  `json:"points"`
 	Threshold int64  `json:"threshold,omitempty"`
 	IsGE      bool   `json:"is_ge,omitempty"`
+	// MaxMode: under max-dice mode every round would repeat the first, so a single round is rolled: WoD adds no dice
+	// at all (no <> marks), Double Cross marks its critical dice and counts the round 10 without a further round
+	MaxMode bool `json:"max_mode,omitempty"`
 }
 
 func (p PoolParams) String() string {
@@ -433,7 +436,7 @@ func (p PoolParams) explodes(v int64) bool {
 	if p.Fn == "dc" {
 		return v >= p.AddLine
 	}
-	return p.AddLine != 0 && v >= p.AddLine
+	return p.AddLine != 0 && v >= p.AddLine && !p.MaxMode
 }
 
 func (p PoolParams) success(v int64) bool {
@@ -473,7 +476,7 @@ func judgePool(p PoolParams, first int64, total, rounds *int64, text string) (fa
 	}
 	facts.Rounds = int(pt.Rounds)
 	facts.Shown = pt.Shown
-	neverExplodes := (fam == "wod" && p.AddLine == 0) || p.AddLine > p.Points
+	neverExplodes := (fam == "wod" && p.AddLine == 0) || p.AddLine > p.Points || p.MaxMode
 	if fam == "dc" && pt.BigFail != (pt.A == 1) {
 		return facts, "dc:bigfail-mark", show, "大失败 exactly when the result is 1"
 	}
@@ -495,6 +498,13 @@ func judgePool(p PoolParams, first int64, total, rounds *int64, text string) (fa
 			hi := 10*(pt.Rounds-1) + p.Points
 			if p.AddLine-1 < p.Points {
 				hi = 10*(pt.Rounds-1) + p.AddLine - 1
+			}
+			if p.MaxMode {
+				// every die shows its highest face: critical (10) when that reaches the critical value
+				lo, hi = p.Points, p.Points
+				if p.Points >= p.AddLine {
+					lo, hi = 10, 10
+				}
 			}
 			if pt.A < lo || pt.A > hi {
 				return facts, "dc:tuple", show, fmt.Sprintf("result within [%d,%d] = 10*(rounds-1) + a non-critical face, for %s", lo, hi, p.String())
@@ -545,6 +555,10 @@ func judgePool(p PoolParams, first int64, total, rounds *int64, text string) (fa
 		}
 		want = angles
 	}
+	lastCritical := want > 0
+	if p.MaxMode {
+		want = 0 // the single round of max mode has no continuation
+	}
 	if want != 0 {
 		return facts, fam + ":missing-round", show, "a further round for the <> dice of the last round shown"
 	}
@@ -567,6 +581,9 @@ func judgePool(p PoolParams, first int64, total, rounds *int64, text string) (fa
 		}
 	}
 	wantRes := 10*(pt.Rounds-1) + mx
+	if p.MaxMode && lastCritical {
+		wantRes = 10 // the only round is critical
+	}
 	if pt.A != wantRes {
 		sg := "dc:total"
 		if critRoundHasBigNonCrit {
